@@ -16,3 +16,13 @@ func (s *Store) VerifUsed() uint64 {
 	defer s.impl.mu.RUnlock()
 	return s.impl.size
 }
+
+// VerifBlobSize returns the reserved size recorded for key (0 if absent).
+func (s *Store) VerifBlobSize(key string) uint64 {
+	s.impl.mu.RLock()
+	defer s.impl.mu.RUnlock()
+	if b, ok := s.impl.blobs[key]; ok {
+		return b.size
+	}
+	return 0
+}
